@@ -125,6 +125,8 @@ def main(tier):
             jobs = 1 + (k % 2)
             scn = RC.scenario_from_graph(g, placement=k, jobs=jobs, git_tpl=tpl,
                                          sched={"mode": "script", "choices": []})
+            if k % 4 in (1, 2) and k % 3 == 0:
+                RC.rename_local(scn)      # the same bare name in several packages (//p:u1, //:u1)
             scns.append(scn)
         # the same instances with one dependency listed TWICE under two spellings (":x" and "//pkg:x", or with a trailing
         # slash): such a definition must be rejected, and in any case no task may run twice
